@@ -46,6 +46,20 @@ Theorem C11_special_ctx_scrubbed :
 Proof. exact (@special_ctx_scrubbed). Qed.
 Print Assumptions C11_special_ctx_scrubbed.
 
+(* ... and so do the views obtained from it: Context.Clone() and Context.CloneWith() copies, whatever the
+   pooled context a CloneWith copy is built on held before *)
+Theorem C11_special_clones_scrubbed :
+  forall (R : Type) (ignoreTS redirectTS : R -> bool) (cleanfn : bytes -> cres) (opts : options) (roots : list root)
+         (lookup : bytes -> option (R * bool)) rq c0 recp rect o (pooled : ctx R),
+  serve_http ignoreTS redirectTS cleanfn opts roots lookup rq c0 recp rect = Done o ->
+  (forall r, o_handler o <> HRoute r) ->
+  (c_route (clone_with (o_ctx o) pooled) = None /\ ctx_params (clone_with (o_ctx o) pooled) = [] /\
+   c_scope (clone_with (o_ctx o) pooled) = scope_of (o_handler o)) /\
+  (c_route (clone (o_ctx o)) = None /\ ctx_params (clone (o_ctx o)) = [] /\
+   c_scope (clone (o_ctx o)) = scope_of (o_handler o)).
+Proof. exact (@special_clones_scrubbed). Qed.
+Print Assumptions C11_special_clones_scrubbed.
+
 (* "When no route serves a request, the answer depends only on the router options" *)
 Theorem C11_dispatch_depends_only_on_options :
   forall (R1 R2 : Type) (ign1 red1 : R1 -> bool) (ign2 red2 : R2 -> bool) (clean1 clean2 : bytes -> cres)
